@@ -7,12 +7,21 @@ NOTES = (
     "exit 2 for machinery failures. Known findings: KNOWN_FINDINGS.txt."
 )
 ENGINES = [
+    {"name": "Scanner", "path": "spec/Scanner.tla", "serves_properties": ["C13"],
+     "kind_free_text": "TLA+ model of the tokenizer's hand-maintained position counters (one action per way the cursor moves: _advance(i), blank skip, digit batch, alnum run, keyword fold, string fast path, escape pair, retreat) with reference RefLine/RefCol; also the generator of abstract texts; ScanTrace.tla is the acceptor for recorded tokenizer/parser runs"},
     {"name": "Schema", "path": "spec/Schema.tla", "serves_properties": ["C18"],
      "kind_free_text": "TLA+ model of MappingSchema (mapping, find cache, normalised-name cache, identifier normalisation strategies) with the cache-free reference Fresh*; TLC exhaustive (Coherent, AnswersOK) + transition emission replayed on the real class"},
     {"name": "Ast", "path": "spec/Ast.tla", "serves_properties": ["C08", "C09", "C12"],
      "kind_free_text": "TLA+ model of the mutable Expression tree (node store, every branch of set/append/replace/pop, hash cache, deepcopy); TLC exhaustive + transition emission; AstTrace.tla evaluates the invariants on recorded real trees"},
 ]
 CHECKS = {
+    "C13": {
+        "engine": "Scanner",
+        "design_ref": "DESIGN.md section 5, C13",
+        "technique": "TLA+ model of the scanner's position bookkeeping checked exhaustively by TLC (PosOK); TLC-enumerated texts rendered per dialect, real tokenizer/parser runs recorded and validated by the TLA+ acceptor ScanTrace (code->spec)",
+        "text": "PosOK (counters = reference line/column) is model-checked over every scanning behaviour on every text of length <= 4-5 over 9 character classes, with four negative-control variants. For conformance, every abstract text up to length 3 (x34 dialects) and a slice of length 4 over 14 classes, in 8 contexts (bare, SELECT, inside a string, folded into GROUP BY, command text, multi-statement script, comment, number suffix), is tokenized and parsed by the real code; TLC recomputes from the code points: token order/disjointness/range, gap content, line/col vs offset, span vs lexeme, ParseError line/col/highlight/context, TokenError start/end, and the positions copied onto Identifier nodes.",
+        "note": "Trusted: the renderer and the classification of token kinds for the lexeme clause (raw / whitespace-folded / delimited / command text / 0x-prefixed). Positions follow the code's own convention (CR LF counts once; the LF shares the CR's column). Two deliberate-normalisation findings are listed in KNOWN_FINDINGS.txt.",
+    },
     "C18": {
         "engine": "Schema",
         "design_ref": "DESIGN.md section 5, C18",
